@@ -7,6 +7,7 @@ distinct, completely written and closed temporary file holding the finished enco
 import ast
 
 from tfsa.flow import Flow, show, walk_terms
+from tfsa.loader import own_nodes
 from tfsa.report import norm
 from . import common as C
 
@@ -28,6 +29,7 @@ STOPS = ["torrentfile.edit:edit_torrent", "torrentfile.commands:edit", "torrentf
          "torrentfile.interactive:edit_action"]
 WRAPPERS = {"builtins.str", "os.fspath", "os.path.abspath", "os.path.realpath", "os.path.normpath", "pathlib.Path", "os.fsdecode"}
 ATOMIC = {"os.replace", "os.rename"}
+MOVERS = {"shutil.move"}       # rename when source and target share a file system, else copy INTO the target and delete
 
 
 def classify_path(terms):
@@ -36,17 +38,21 @@ def classify_path(terms):
     for t in terms:
         kinds.add(_classify1(t))
     kinds.discard("rec")
+    if "meta-or-sibling" in kinds:
+        return "mixed"      # the pattern / listing also yields the metafile itself
     if not kinds:
         return "unknown"
     if kinds == {"meta"}:
         return "meta"
     if kinds == {"tmp"}:
         return "tmp"
+    if kinds == {"fresh"}:
+        return "fresh"
     if "unknown" in kinds:
         return "unknown" if "meta" not in kinds else "mixed"
     if "meta" in kinds:
         return "mixed"
-    if kinds <= {"tmp", "other"}:
+    if kinds <= {"tmp", "other", "fresh"}:
         return "other"
     return "unknown"
 
@@ -69,7 +75,9 @@ def _classify1(t):
         if t[1] in WRAPPERS and t[2]:
             return classify_path(t[2][0])
         if t[1].startswith("tempfile."):
-            return "tmp"
+            # a new path of its own: distinct from the metafile, but (without dir=<the metafile's directory>) possibly on
+            # another file system
+            return "fresh"
         if t[1] == "os.path.join":
             parts = [classify_path(a) for a in t[2]]
             if parts and parts[-1] == "meta":
@@ -78,6 +86,24 @@ def _classify1(t):
                 return "tmp" if _has_nonempty_const(t[2][1:]) else "unknown"
             return "other"
         return "unknown" if any(_mentions_meta(a) for a in t[2]) else "other"
+    if k == "elem":
+        # an entry found by listing the metafile's directory
+        for b in t[1]:
+            if b[0] == "meth" and b[1] in ("glob", "rglob") and _mentions_meta(b[2]):
+                pats = b[3][0] if b[3] else frozenset()
+                lits = [x[1] for p_ in pats if p_[0] == "op" and p_[1] == "Add" for side in p_[2] for x in side if x[0] == "const" and isinstance(x[1], str)]
+                lits += [x[1] for x in pats if x[0] == "const" and isinstance(x[1], str)]
+                if any(_mentions_meta(frozenset([p_])) for p_ in pats) and lits and all(l.strip("*?") != "" for l in lits):
+                    return "tmp"        # <name> + a non-empty literal: cannot be the metafile itself
+                return "mixed" if False else "meta-or-sibling"
+            if b[0] == "meth" and b[1] == "iterdir" and _mentions_meta(b[2]):
+                return "meta-or-sibling"
+            if b[0] == "ext" and b[1] in ("os.listdir", "os.scandir", "glob.glob", "glob.iglob") and any(_mentions_meta(a) for a in b[2]):
+                return "meta-or-sibling"
+    if k == "sub" and t[1] and all(b[0] == "ext" and b[1].startswith("tempfile.") for b in t[1]):
+        return "fresh"      # fd, path = mkstemp(...)
+    if k == "attr" and t[1] and all(b[0] == "ext" and b[1].startswith("tempfile.") for b in t[1]):
+        return "fresh"      # NamedTemporaryFile(...).name
     if k == "op" and t[1] == "Add":
         sides = [classify_path(a) for a in t[2]]
         if "meta" in sides or "mixed" in sides:
@@ -144,14 +170,28 @@ def run(ctx):
             continue
         writes_by_fn.setdefault(e.fn, []).append(e)
         call = e.site
+        if e.prim in MOVERS and len(call.args) >= 2:
+            src = classify_path(flow.term(call.args[0], e.fn))
+            dst = classify_path(flow.term(call.args[1], e.fn))
+            if dst in ("meta", "mixed"):
+                if src == "tmp":
+                    ctx.holds("C17.1", e.fn, "%s(tmp, metafile) with the temporary file next to the metafile: same directory, so it is a rename" % e.prim, call, path=where)
+                    replaces.append((e, where))
+                elif src == "fresh":
+                    ctx.violated("C17.1", e.fn, "%s moves a temporary file created in the system's temporary directory onto the metafile: when that directory is on another file system the move "
+                                 "degrades to opening the metafile for writing and copying into it - a crash or full disk during the copy leaves it empty or truncated" % e.prim, call, path=where)
+                else:
+                    ctx.undecided("C17.1", e.fn, "%s onto the metafile from a source whose location is not understood (a rename only within one file system)" % e.prim, call, path=where)
+                continue
         if e.prim in ATOMIC and len(call.args) >= 2:
             src = classify_path(flow.term(call.args[0], e.fn))
             dst = classify_path(flow.term(call.args[1], e.fn))
             if src in ("meta", "mixed"):
                 ctx.violated("C17.1", e.fn, "%s moves the metafile itself away (source may be the metafile path)" % e.prim, call, path=where)
             elif dst in ("meta", "mixed"):
-                if src == "tmp":
-                    ctx.holds("C17.1", e.fn, "%s(tmp, metafile): atomic replacement from a path distinct by construction" % e.prim, call, path=where)
+                if src in ("tmp", "fresh"):
+                    ctx.holds("C17.1", e.fn, "%s(%s, metafile): atomic replacement from a path distinct by construction%s" % (
+                        e.prim, "tmp" if src == "tmp" else "fresh temporary file", "" if src == "tmp" else " (fails as a whole, leaving the metafile alone, if that path is on another file system)"), call, path=where)
                     replaces.append((e, where))
                 elif src == "unknown":
                     ctx.undecided("C17.1", e.fn, "source of the replace not understood", call, path=where)
@@ -196,7 +236,20 @@ def run(ctx):
         complete = None
         closed = None
         enc_ok = None
-        for w in writes_by_fn.get(fn, []):
+        # fd, path = mkstemp(...);  with os.fdopen(fd, "wb") as f: ...;  os.replace(path, metafile)
+        class _W:
+            pass
+        extra = []
+        if isinstance(src, ast.Name):
+            for what, payload in ctx.res.bindings(fn).get(src.id, []):
+                if what == "unpack" and payload[1] == 1 and isinstance(payload[0], ast.Call) and C.is_ext_call(ctx, payload[0], fn, ("tempfile.mkstemp",)):
+                    for n in own_nodes(fn.node):
+                        if isinstance(n, ast.Call) and C.is_ext_call(ctx, n, fn, ("os.fdopen",)) and n.args and isinstance(n.args[0], ast.Name):
+                            if any(w2 == "unpack" and p2[1] == 0 and p2[0] is payload[0] for w2, p2 in ctx.res.bindings(fn).get(n.args[0].id, [])):
+                                w_ = _W()
+                                w_.prim, w_.site = "fdopen-of-mkstemp", n
+                                extra.append(w_)
+        for w in list(writes_by_fn.get(fn, [])) + extra:
             wc = w.site
             if w.prim == "pyben.dump" and len(wc.args) >= 2 and flow.term(wc.args[1], fn) == src_t:
                 wn = C.stmt_node(ctx, fn, wc)
@@ -209,7 +262,17 @@ def run(ctx):
                 par = ctx.prog.parent.get(wc)       # os.fdopen(os.open(tmp, flags), "wb")
                 if isinstance(par, ast.Call) and C.is_ext_call(ctx, par, fn, ("os.fdopen",)) and par.args and par.args[0] is wc:
                     obj_call = par
+            if w.prim == "fdopen-of-mkstemp":
+                obj_call = wc
             if obj_call is not None:
+                # an unbuffered binary file is a raw FileIO: write() issues one write(2) and may store only part of the data
+                buf = [kw.value for kw in obj_call.keywords if kw.arg == "buffering"] + ([obj_call.args[2]] if len(obj_call.args) > 2 else [])
+                if buf and isinstance(buf[0], ast.Constant) and buf[0].value == 0:
+                    used = any(isinstance(ctx.prog.parent.get(x), (ast.Assign, ast.Compare, ast.AugAssign, ast.While, ast.If)) for x in own_nodes(fn.node)
+                               if isinstance(x, ast.Call) and isinstance(x.func, ast.Attribute) and x.func.attr == "write")
+                    if not used:
+                        ctx.violated("C17.2", fn, "the temporary file is opened unbuffered (buffering=0): write() on a raw file may store only part of the encoding (disk full, file-size limit, signal) and "
+                                     "returns the count instead of raising - the count is ignored here, so a truncated temporary file is moved over the metafile", obj_call, path=where)
                 # find the file object and its write
                 parent = ctx.prog.parent.get(obj_call)
                 fd = None
@@ -328,7 +391,7 @@ QUICK_CANARIES = True
 CLAIM = {
     "text": "Decided for every crash point and fault: the set of file-system operations reachable from edit is enumerated statically and the only one whose target can "
             "alias the metafile path is an atomic replace from a distinct, completely written, closed temporary file; encoding precedes all of them. Because the argument "
-            "is prefix-closed (it constrains every reachable operation, not an observed order) it covers a crash or error before, at and after each operation.",
+            "is prefix-closed (it constrains every reachable operation, not an observed order) it covers a crash or error before, at and after each operation. shutil.move onto the metafile is accepted only from a sibling path (rename), a temporary file from the system directory makes it a violation; an unbuffered (raw) temporary file whose write count is ignored is a violation; paths found by listing the metafile's directory with a pattern that also matches the metafile are treated as the metafile.",
     "note": "Trusted: atomicity of os.replace/os.rename on one POSIX file system; the effect table; pyben.dumps is total-or-raises. Durability across power loss (fsync) is "
             "not part of the property and not checked. Paths are compared by construction (origin terms), not by run-time value.",
     "technique": "typestate over CFG-ordered file-system effects with origin-term alias classification (who-may-touch-the-metafile)",
